@@ -25,3 +25,11 @@ def _roots(prop, tier, seed, replay):
 
 CHECKS = {p: _reg for p in ("C01", "C03", "C05", "C06", "C10")}
 CHECKS.update({p: _roots for p in ("C08", "C09")})
+
+
+def _mux(prop, tier, seed, replay):
+    import fam_mux
+    return fam_mux.check(prop, tier, seed, replay)
+
+
+CHECKS["C18"] = _mux
